@@ -258,6 +258,12 @@ def _crafted(case):
             for a in case["replicas"][c]:
                 d.register_replica(c, a, publish=False)
         hosts = dict(case["hosts"])
+
+        def repl(c):
+            try:
+                return set(d.replica_agents(c))
+            except Exception:
+                return set()
         for op in case["script"]:
             k = op[0]
             if k == "run":
@@ -275,7 +281,7 @@ def _crafted(case):
                         d.unregister_computation(c, a, publish=False)
                         hosts.pop(c)
                     for c in case["comps"]:
-                        if a in d.replica_agents(c):
+                        if a in repl(c):
                             d.unregister_replica(c, a, publish=False)
                     d.unregister_agent(a, publish=False)
             elif k == "ready":
@@ -285,7 +291,7 @@ def _crafted(case):
                     if c not in hosts:
                         d.register_computation(c, op[1], publish=False)
                         hosts[c] = op[1]
-                    if op[1] in d.replica_agents(c):
+                    if op[1] in repl(c):
                         d.unregister_replica(c, op[1], publish=False)
                 mgt.on_message("_mgt_" + op[1], om.RepairDoneMessage(op[1], list(op[2]), {}), 0)
     finally:
